@@ -13,7 +13,7 @@ from mc.ref import expr as rx
 ID = "C10"
 LEVEL = "model_checking"
 LEVEL_TEXT = ("Explicit enumeration of `.if` programs (18 condition kinds: 0/1/2/-1 as literal, := constant, macro parameter, constant "
-              "expression, undefined name alone and inside an expression) x else present/absent x 7 then-bodies (incl. a label used after the .if and a := override) x 4 else-bodies x 4 placements (top level, block, "
+              "expression, undefined name alone and inside an expression) x else present/absent x 9 then-bodies (incl. empty, a macro definition, a label used after the .if and a := override) x 5 else-bodies x 4 placements (top level, block, "
               "macro body, loop body) and `.for` programs (all bound pairs over {-2,0,1,3}^2, bounds from := constants, macro "
               "parameters and expressions) x 9 bodies (empty expansion, := shadowing inside the body, data over v, lda.b v, label + reference, nested loop over v*2+w, conditional, "
               "macro call with v, mixed) x 3 placements x 3 nestings (plain, inside a conditional, inside another loop; thorough: bound pairs over 9 values). Each program is assembled by the real "
@@ -33,8 +33,9 @@ S = rx.sym
 DIRECT = ("", "", "")
 ORG = 0x018000
 NN = ("macro", "nn", ["x"], [("data", "db", [S("x")])])
+MZ0 = ("macro", "mz", [], [("data", "db", [N(0xE0)])])
 CONSTS = [("const", "kc", N(1)), ("const", "k0", N(0)), ("const", "k2", N(2)), ("const", "kn", ("u", "-", N(1))),
-          ("const", "ka", N(1)), ("const", "kb", N(3)), ("const", "kq", N(1)), ("const", "acc", N(0))]
+          ("const", "ka", N(1)), ("const", "kb", N(3)), ("const", "kq", N(1)), ("const", "acc", N(0)), ("const", "vv", N(0x5D))]
 
 # condition kind -> (expression in the program, value, how it is supplied)
 COND = {
@@ -53,15 +54,18 @@ THEN = {
     "nested-if": [("if", S("kc"), [("data", "db", [N(0x12)])], [("data", "db", [N(0x13)])])],
     "nested-for": [("for", "jj", N(0), N(2), [("data", "db", [S("jj")])])],
     "call": [("call", "nn", [N(0x14)])],
+    "empty": [],                                                       # an empty first block (with an else block present or not)
+    "defines-macro": [("macro", "mz", [], [("data", "db", [N(0xE1)])])],  # each branch defines the same macro differently; applied after the .if
     "label-after": [("label", "la"), ("data", "db", [N(0x15)])],      # the label is referenced AFTER the .if
     "const-override": [("const", "kq", N(2)), ("data", "db", [N(0x16)])],  # kq := 1 outside, .db kq after the .if
 }
-AFTER_IF = {"label-after": [("data", "dw", [S("la")])], "const-override": [("data", "db", [S("kq")])]}
+AFTER_IF = {"label-after": [("data", "dw", [S("la")])], "const-override": [("data", "db", [S("kq")])], "defines-macro": [("call", "mz", [])]}
 ELSE = {
     "db": [("data", "db", [N(0x21)])],
     "label": [("label", "el"), ("data", "dw", [S("el")])],
     "call": [("call", "nn", [N(0x24)])],
     "label-after": [("label", "la"), ("data", "db", [N(0x25)])],
+    "defines-macro": [("macro", "mz", [], [("data", "db", [N(0xE2)])])],
 }
 IF_PLACES = ["top", "block", "macro", "for"]
 FOR_BODIES = {
@@ -82,7 +86,7 @@ VALS_T = [-3, -2, -1, 0, 1, 2, 3, 5, 8]
 
 
 def bound(tier):
-    return ("IF: 18 condition kinds x else on/off x 7 then x 4 else bodies x 4 placements; FOR: (16 literal bound pairs + 5 symbolic) x 9 "
+    return ("IF: 18 condition kinds x else on/off x 9 then x 5 else bodies x 4 placements; FOR: (16 literal bound pairs + 5 symbolic) x 9 "
             "bodies x 3 placements x 3 nestings" + ("; bound pairs over {-3..3,5,8}^2; 8 two-level placements" if tier == "thorough" else ""))
 
 
@@ -117,7 +121,7 @@ def wrap_once(inner, place, macro_defs, level):
 
 def skeleton(inner, place, macro_defs):
     """Wrap `inner` statements at a placement (a name, or 'outer/inner' for two nested placements)."""
-    body = [("org", N(ORG)), ("label", "pre"), ("data", "db", [N(0xA0)])]
+    body = [("org", N(ORG)), ("label", "pre"), ("data", "db", [N(0xA0)]), ("label", "fl"), ("data", "db", [N(0xA9)])]
     wrapped = inner
     for level, pl in enumerate(reversed(place.split("/"))):
         wrapped = wrap_once(wrapped, pl, macro_defs, level)
@@ -125,7 +129,9 @@ def skeleton(inner, place, macro_defs):
     if False:
         pass
     # scoped constructs AFTER the directive: a macro application with an argument and a block with its own label
-    body += [("call", "nn", [("b", "+", S("kc"), N(0x30))]), ("block", [("label", "pblk"), ("data", "dw", [S("pblk")])]),
+    # names that loop bodies also use (label fl, variable vv): after the directive they still mean the OUTER definitions
+    body += [("data", "dw", [S("fl")]), ("data", "db", [S("vv")]),
+             ("call", "nn", [("b", "+", S("kc"), N(0x30))]), ("block", [("label", "pblk"), ("data", "dw", [S("pblk")])]),
              ("label", "post"), ("data", "dw", [N(0xEEDD)]), ("data", "dl", [S("post")])]
     return body
 
@@ -157,7 +163,7 @@ def if_programs(ck):
                 selected = then_b if cval != 0 else (else_b or [])
                 after = AFTER_IF.get(tk, [])
                 for twin in (False, True):
-                    macros = [NN]
+                    macros = [NN, MZ0]
                     if how == "param":
                         inner_if = [("if", S("cc"), then_b, else_b)]
                         macros.append(("macro", "wp", ["cc"], (selected if twin else inner_if) + after))
